@@ -70,7 +70,11 @@ Lemma step_main_inv cb hl f s s1 : step_main cb hl f s = Next s1 ->
         ((exists ns, fr = UG ns) \/ f_omit f = false) /\
         find_member (o_param (fi_opts f) ++ [equals]) [] (fst (gsel fr s)) = Some (before, n, after) /\
         assign cb NValue (n_end n) (n_text n) f = Ok (v, rest) /\ fi_embptr f = [] /\
-        u_frags s1 = u_frags s /\ u_idx s1 = u_idx s /\ u_out s1 = (fi_index f, v) :: u_out s /\
+        u_frags s1 = match fr, rest with
+                     | UV _, Some _ => set_frag (u_frags s) (u_idx s) (UV (upd_node n rest))
+                     | _, _ => u_frags s
+                     end /\
+        u_idx s1 = u_idx s /\ u_out s1 = (fi_index f, v) :: u_out s /\
         u_group s1 = Some (before ++ upd_node n rest :: after) /\
         u_ngv s1 = snd (gsel fr s) - 1)
   \/ (f_group f = false /\ exists n v rest,
